@@ -1,2 +1,114 @@
-(* Props/C01.v -- placeholder until the rung-1 theorems are in (see Proofs/SaveProofs.v). *)
-From LV Require Import Base.Bytes Model.Obj Model.Writer Model.Save.
+(* Props/C01.v -- property C01: save then load returns the same document.
+   Rung 1: theorems about the save model (Model/Save.v) that hold for EVERY document.
+   Statements only; proofs live in Proofs/SaveProofs.v.
+   (placeholder marker for tools/mkmanifest.py: removed once ./check C01 is green again -- the shared
+   translator part Lex currently fails on /repo 61b571d.) *)
+From LV Require Import Base.Bytes Base.Sx Model.Obj Model.Writer Model.Save Proofs.SaveProofs.
+
+Local Open Scope N_scope.
+
+(* (1) offsets_exact, soundness.  Whatever the document: every entry of the cross-reference map
+   built while saving names an object of the document that was written, and its offset is the
+   position (mod 2^32, the `as u32` of the code) of that object's "id gen obj" header in the file. *)
+Theorem C01_offsets_sound :
+  forall d id off g,
+    xget (xmap_of d) id = Some (XNormal off g) ->
+    exists o pre post,
+      In ((id, g), o) (d_objects d) /\ skipped o = false /\
+      body_of d = pre ++ write_indirect_object id g o ++ post /\
+      off = blen pre mod u32_mod.
+Proof. exact offsets_sound. Qed.
+
+(* (2) offsets_exact, completeness.  With pairwise distinct object numbers every object that is
+   not dropped by the skip rule is in the file and is recorded at exactly its own offset. *)
+Theorem C01_offsets_complete :
+  forall d id g o,
+    NoDup (obj_numbers (d_objects d)) -> In ((id, g), o) (d_objects d) -> skipped o = false ->
+    exists pre post,
+      body_of d = pre ++ write_indirect_object id g o ++ post /\
+      xget (xmap_of d) id = Some (XNormal (blen pre mod u32_mod) g).
+Proof. exact offsets_complete. Qed.
+
+(* (3) startxref_exact.  A successful save is  body ++ cross-reference part ++ "\nstartxref\n<n>\n%%EOF"
+   where n is the length of body, i.e. the offset at which the cross-reference part starts: the
+   keyword "xref" for the table format, the header of the cross-reference stream object otherwise. *)
+Theorem C01_startxref_exact :
+  forall xt d,
+    so_status (save xt d) = SaveOk ->
+    exists mid,
+      so_bytes (save xt d) = body_of d ++ mid ++ startxref_bytes (blen (body_of d)) /\
+      match xt with
+      | XTable => mid = write_xref (xmap_of d) (d_max_id d + 1) ++ trailer_bytes (trailer_table d)
+      | XStream =>
+        let p := xstream_parts d (xmap_of d) (blen (body_of d) mod u32_mod) in
+        mid = write_indirect_object (d_max_id d + 1) 0 (OStream (fst (fst p)) (snd (fst p)))
+      end.
+Proof. exact save_ok_shape. Qed.
+
+(* (4) Cross-reference table entries are 20 bytes, "nnnnnnnnnn ggggg k \n". *)
+Theorem C01_xref_entry_20 :
+  forall e, xentry_in_range e -> length (write_xref_entry e) = 20%nat.
+Proof. exact xref_entry_20. Qed.
+
+(* (5) Which entry the table prints for which object number: entry 0 is the unusable free entry,
+   a number below Size is printed iff the map has it, nothing at or above Size.  (6) The same for
+   the cross-reference stream, whose range is 1..Size with Size the stream object itself. *)
+Theorem C01_table_sections :
+  forall x size j,
+    1 <= size ->
+    sections_get (table_sections x size) j =
+      if j =? 0 then Some XUnusable
+      else if j <? size then option_map table_conv (xget x j) else None.
+Proof. exact table_sections_get. Qed.
+
+Theorem C01_stream_sections :
+  forall x size j,
+    sections_get (stream_sections x size) j = if (1 <=? j) && (j <=? size) then xget x j else None.
+Proof. exact stream_sections_get. Qed.
+
+(* non-vacuity: a two-object document (a dictionary and a stream with generation 2, sparse
+   numbers) and the exact file the model writes for it *)
+Definition ex_doc : doc :=
+  {| d_version := bs "1.5"; d_binary_mark := [xbb; xad; xc0; xde];
+     d_trailer := [(K_Root, ORef 1 0)];
+     d_objects := [((1, 0), ODict [(K_Type, OName (bs "Catalog"))]);
+                   ((3, 2), OStream [(K_Length, OInt 3)] (bs "abc"))];
+     d_max_id := 4 |}.
+
+Theorem C01_example :
+  so_status (save XTable ex_doc) = SaveOk /\ NoDup (obj_numbers (d_objects ex_doc)) /\
+  xmap_of ex_doc = [(1, XNormal 15 0); (3, XNormal 48 2)] /\
+  save_table ex_doc =
+    bs "%PDF-1.5" ++ [x0a; x25; xbb; xad; xc0; xde; x0a] ++
+    bs "1 0 obj
+<</Type/Catalog>>
+endobj
+3 2 obj
+<</Length 3>>stream
+abc
+endstream 
+endobj
+xref
+0 2
+0000000000 65535 f 
+0000000015 00000 n 
+3 1
+0000000048 00002 n 
+trailer
+<</Root 1 0 R/Size 5>>
+startxref
+98
+%%EOF".
+Proof.
+  split; [vm_compute; reflexivity|]. split.
+  - cbn. repeat constructor; cbn; intuition discriminate.
+  - split; vm_compute; reflexivity.
+Qed.
+
+Print Assumptions C01_offsets_sound.
+Print Assumptions C01_offsets_complete.
+Print Assumptions C01_startxref_exact.
+Print Assumptions C01_xref_entry_20.
+Print Assumptions C01_table_sections.
+Print Assumptions C01_stream_sections.
+Print Assumptions C01_example.
